@@ -5,7 +5,7 @@
   ```go
   maxRetries := 0
   for {
-      if recvFailed.Load() { return replayWait.Error() (or "a pipelined batch failed") }   // nothing is sent
+      if recvFailed.Load() { <-replayWait.Done(); return replayWait.Error() }   // nothing is sent, the receiver's error is reported
       err := sendFuncOnce(...)
       if err == nil { return err }
       maxRetries++
@@ -19,7 +19,9 @@
       return err
   }
   ```
-  `sendFuncOnce` re-sends the WHOLE queued batch, so every extra call executes
+  `sendFuncOnce` on a cluster output in blocking non-transactional mode with a resume position sends
+  two batches: the data commands, and only when they went through the checkpoint HSETs; either failing
+  fails the attempt (one `outs` entry). `sendFuncOnce` re-sends the WHOLE queued batch, so every extra call executes
   again whatever the nodes accepted of it. handleDirectError: MOVED/ASK ↦
   ErrRedisTypologyChanged (restart), CROSSSLOT ↦ ErrBreak.
 -/
@@ -69,13 +71,6 @@ def sendFunc (m : SMode) : List (Option SErr) → Nat → Nat × Final
         (n + 1, f)
       else (1, direct e)
 
-/-- `recvFailed` (set by the pipelined receiver's `handleError` before it closes the run) is
-    tested at the top of every iteration of `sendFunc`'s loop: once it is set nothing more is
-    sent — no batch and no resume position. `sendFunc` above is the loop with the flag unset;
-    the flag can only cut it short. -/
-def sendFuncR (m : SMode) (recvFailed : Bool) (outs : List (Option SErr)) : Nat × Final :=
-  if recvFailed then (0, .other) else sendFunc m outs 0
-
 /-- pipelined mode: the reply of a dispatched batch is read by the receiver
     goroutine, whose `handleError` closes the run — no re-send:
     ```go
@@ -86,5 +81,15 @@ def sendFuncR (m : SMode) (recvFailed : Bool) (outs : List (Option SErr)) : Nat 
 def recvFinal (m : SMode) : SErr → Final
   | .other => .other
   | e => if m.txnCluster then direct e else .other   -- plain: the raw ErrMove/ErrAsk closes the run
+
+/-- `recvFailed` (set by the pipelined receiver's `handleError` before it closes the run with
+    `recvFinal`'s error) is tested at the top of every iteration of `sendFunc`'s loop: once it is
+    set nothing more is sent — no batch and no resume position — and the sender waits for the run to
+    be closed and reports THAT error. `sendFunc` above is the loop with the flag unset; the flag can
+    only cut it short. `recv` = the error class the receiver saw, if any. -/
+def sendFuncR (m : SMode) (recv : Option SErr) (outs : List (Option SErr)) : Nat × Final :=
+  match recv with
+  | some e => (0, recvFinal m e)
+  | none => sendFunc m outs 0
 
 end GunYu.ClusterSender
